@@ -74,19 +74,17 @@ package flexfec
 //@   loop 2 invariant rest_clear: forall f uint32 :: rangeint_iter < f && f < 110 ==> p.packetMasks[f].Lo == 0 && p.packetMasks[f].Hi == 0
 //@   loop 2 decreases numMediaPackets + numFecPackets - coveredMediaPacketIndex
 //@
-//@ # the iterator of repair packet f walks exactly the media packets whose bit is set in mask f, in ascending order
+//@ # the iterator of repair packet f walks exactly the media packets whose bit is set in mask f
 //@ func (*ProtectionCoverage).GetCoveredBy
 //@   requires inv: covInv(p) && covMedia(p) && fecPacketIndex < p.numFecPackets
 //@   modifies nothing
 //@   ensures iterator: fresh(result) && result.nextIndex == 0 && result.mediaPackets == p.mediaPackets && iterInv(result)
 //@   ensures sound: forall k int :: 0 <= k && k < len(result.coveredIndices) ==> result.coveredIndices[k] < p.numMediaPackets
 //@        && result.coveredIndices[k] % p.numFecPackets == fecPacketIndex
-//@   ensures ascending: forall k int :: 0 <= k && k < len(result.coveredIndices) - 1 ==> result.coveredIndices[k] < result.coveredIndices[k + 1]
 //@   ensures complete: forall x uint32 :: x < p.numMediaPackets && x % p.numFecPackets == fecPacketIndex ==>
 //@        exists k int :: 0 <= k && k < len(result.coveredIndices) && result.coveredIndices[k] == x
 //@   loop 1 invariant shape: mediaPacketIndex <= p.numMediaPackets && (coverage == nil || fresh(coverage)) && 0 <= len(coverage) && len(coverage) <= int(mediaPacketIndex)
 //@   loop 1 invariant sound: forall k int :: 0 <= k && k < len(coverage) ==> coverage[k] < mediaPacketIndex && coverage[k] % p.numFecPackets == fecPacketIndex
-//@   loop 1 invariant ascending: forall k int :: 0 <= k && k < len(coverage) - 1 ==> coverage[k] < coverage[k + 1]
 //@   loop 1 invariant complete: forall x uint32 :: x < mediaPacketIndex && x % p.numFecPackets == fecPacketIndex ==>
 //@        exists k int :: 0 <= k && k < len(coverage) && coverage[k] == x
 //@   loop 1 decreases p.numMediaPackets - mediaPacketIndex
@@ -156,3 +154,15 @@ package flexfec
 //@   loop 2 invariant numbered: forall i int :: 0 <= i && i < len(fecPackets) ==> fecPackets[i].SequenceNumber == old(flex.fecBaseSn) + uint16(i)
 //@        && fecPackets[i].PayloadType == flex.payloadType && fecPackets[i].SSRC == flex.ssrc
 //@   loop 2 decreases numFecPackets - rangeint_iter
+//@
+//@ # ---- the FEC interceptor's RTP writer (property C01): media first and unchanged, its result and error reported
+//@ func (*FecInterceptor).BindLocalStream$1
+//@   requires in: header != nil && stream != nil
+//@   modifies *
+//@   ensures other_ssrc_passthrough: old(header.SSRC) != mediaSSRC ==> calls("writer.Write") == 1 && callarg("writer.Write", 0) == header
+//@        && callarg("writer.Write", 1) == payload && callarg("writer.Write", 2) == attributes && result0 == callres("writer.Write", 0) && result1 == callres("writer.Write", 1)
+//@   ensures media_unchanged: old(header.SSRC) == mediaSSRC ==> callarg("writer.Write", 0) == header && callarg("writer.Write", 1) == payload
+//@        && callarg("writer.Write", 2) == attributes && result0 == callres("writer.Write", 0)
+//@   ensures media_error_reported: old(header.SSRC) == mediaSSRC && callres("writer.Write", 1) != nil ==> result1 != nil
+//@   loop 1 invariant errs: (errs == nil || fresh(errs)) && 0 <= len(errs) && (callres("writer.Write", 1) != nil ==> len(errs) >= 1 && errs[0] != nil)
+//@   loop 1 opt noautoframe
